@@ -37,6 +37,25 @@
 #include <ctype.h>
 #include <string.h>
 
+#ifdef ASL_VERIF
+#    include "verif_hooks.h"
+
+static void asl_verif_sym(
+        char const* pEvent, char const* pName, long Sect, TempResult const* pVal,
+        int MayChange, char const* pOutcome) {
+    fprintf(asl_verif_trace, "{\"e\":\"%s\",\"pass\":%d,\"line\":%ld,", pEvent, (int)PassNo,
+            (long)CurrLine);
+    asl_verif_str("name", pName);
+    fprintf(asl_verif_trace, ",\"sect\":%ld,\"typ\":%d,\"chg\":%d,", Sect,
+            pVal ? (int)pVal->Typ : 0, MayChange);
+    if (pVal && (pVal->Typ == TempInt)) {
+        fprintf(asl_verif_trace, "\"val\":%lld,", (long long)pVal->Contents.Int);
+    }
+    fprintf(asl_verif_trace, "\"out\":\"%s\"}\n", pOutcome);
+}
+#endif
+
+
 #define LOCSYMSIGHT 3 /* max. sight for nameless temporary symbols */
 
 #define LEAVE  goto func_exit
@@ -2070,6 +2089,13 @@ static Boolean SymbolAdder(PTree* PDest, PTree Neu, void* pData) {
     /* added to an empty leaf ? */
 
     if (!PDest) {
+#ifdef ASL_VERIF
+        if (AV_ON(AV_SYM)) {
+            asl_verif_sym(
+                    "sym_def", Neu->Name, (long)Neu->Attribute, &NewEntry->SymWert,
+                    EnterStruct->MayChange ? 1 : 0, "new");
+        }
+#endif
         NewEntry->Defined    = True;
         NewEntry->Used       = False;
         NewEntry->Changeable = EnterStruct->MayChange;
@@ -2094,6 +2120,13 @@ static Boolean SymbolAdder(PTree* PDest, PTree Neu, void* pData) {
                     serr, STRINGSIZE, ",%s %s:%ld", getmessage(Num_PrevDefMsg),
                     GetFileName((*Node)->FileNum), (long)((*Node)->LineNum));
         }
+#ifdef ASL_VERIF
+        if (AV_ON(AV_SYM)) {
+            asl_verif_sym(
+                    "sym_def", Neu->Name, (long)Neu->Attribute, &NewEntry->SymWert, 0,
+                    "double");
+        }
+#endif
         WrXError(ErrNum_DoubleDef, serr);
         FreeSymbolEntry(&NewEntry, TRUE);
         return False;
@@ -2108,6 +2141,13 @@ static Boolean SymbolAdder(PTree* PDest, PTree Neu, void* pData) {
                     serr, STRINGSIZE, ",%s %s:%ld", getmessage(Num_PrevDefMsg),
                     GetFileName((*Node)->FileNum), (long)((*Node)->LineNum));
         }
+#ifdef ASL_VERIF
+        if (AV_ON(AV_SYM)) {
+            asl_verif_sym(
+                    "sym_def", Neu->Name, (long)Neu->Attribute, &NewEntry->SymWert,
+                    EnterStruct->MayChange ? 1 : 0, "mix");
+        }
+#endif
         WrXError(
                 (*Node)->Changeable ? ErrNum_VariableRedefinedAsConstant
                                     : ErrNum_ConstantRedefinedAsVariable,
@@ -2148,6 +2188,20 @@ static Boolean SymbolAdder(PTree* PDest, PTree Neu, void* pData) {
                 }
             }
         }
+#ifdef ASL_VERIF
+        if (AV_ON(AV_SYM)) {
+            Boolean Same = (NewEntry->SymWert.Typ == (*Node)->SymWert.Typ)
+                        && ((NewEntry->SymWert.Typ != TempInt)
+                            || (NewEntry->SymWert.Contents.Int
+                                == (*Node)->SymWert.Contents.Int));
+
+            asl_verif_sym(
+                    "sym_def", Neu->Name, (long)Neu->Attribute, &NewEntry->SymWert,
+                    EnterStruct->MayChange ? 1 : 0,
+                    (*Node)->Defined ? (Same ? "redef_same" : "redef_changed")
+                                     : (Same ? "same" : "changed"));
+        }
+#endif
         if (EnterStruct->DoCross) {
             NewEntry->LineNum = (*Node)->LineNum;
             NewEntry->FileNum = (*Node)->FileNum;
@@ -2280,6 +2334,13 @@ void PrintSymTree(char* Name) {
 
 void ChangeSymbol(PSymbolEntry pEntry, LargeInt Value) {
     as_tempres_set_int(&pEntry->SymWert, Value);
+#ifdef ASL_VERIF
+    if (AV_ON(AV_SYM)) {
+        asl_verif_sym(
+                "sym_mod", pEntry->Tree.Name, (long)pEntry->Tree.Attribute, &pEntry->SymWert,
+                pEntry->Changeable ? 1 : 0, "mod");
+    }
+#endif
 }
 
 /*!------------------------------------------------------------------------
@@ -2791,6 +2852,14 @@ void LookupSymbol(
             }
             pValue->Flags |= eSymbolFlag_UsesForwards;
         }
+#ifdef ASL_VERIF
+        if (AV_ON(AV_REF)) {
+            asl_verif_sym(
+                    "sym_ref", pEntry->Tree.Name, (long)pEntry->Tree.Attribute,
+                    &pEntry->SymWert, pEntry->Changeable ? 1 : 0,
+                    pEntry->Defined ? "defined" : "forward");
+        }
+#endif
         pEntry->Used = True;
     }
 
@@ -2800,6 +2869,11 @@ void LookupSymbol(
     {
         as_tempres_set_int(pValue, EProgCounter());
         Repass = True;
+#ifdef ASL_VERIF
+        if (AV_ON(AV_REF)) {
+            asl_verif_sym("sym_ref", ExpName, -3L, pValue, 0, "unknown");
+        }
+#endif
         if ((MsgIfRepass) && (PassNo >= PassNoForMessage)) {
             WrStrErrorPos(ErrNum_RepassUnknown, pComp);
         }
